@@ -3,11 +3,11 @@
 set -euo pipefail
 cd "$(dirname "$0")"
 . ./env.sh
-mkdir -p "$VERIF_CACHE"/{deps,bin,rt,build}
+mkdir -p "$VERIF_CACHE"/{bin,rt,build} /verif/.cache/deps /verif/.cache/gocache
 MC=$(go env GOMODCACHE)
 # 1. scratch copies of the dependency modules that get instrumented (overlay may not touch GOMODCACHE)
 copydep() { # name modpath@ver goline
-  local dst="$VERIF_CACHE/deps/$1"
+  local dst="/verif/.cache/deps/$1"
   if [ ! -f "$dst/.ok" ]; then
     rm -rf "$dst"; mkdir -p "$dst"
     cp -r "$MC/$2/." "$dst/"
